@@ -472,6 +472,19 @@ func (f *FakePeer) connectTo(addr string) error {
 	return f.p.VerifAttachConn(c, true, true)
 }
 
+// disconnect closes the scripted peer's connections (the peer "has left"); the peer itself keeps running
+func (f *FakePeer) disconnect() {
+	f.p.RLock()
+	var cs []*p2p.Connection
+	for _, c := range f.p.Connections {
+		cs = append(cs, c)
+	}
+	f.p.RUnlock()
+	for _, c := range cs {
+		f.p.Kick(c)
+	}
+}
+
 func (f *FakePeer) close() {
 	close(f.stop)
 	f.p.RLock()
